@@ -20,6 +20,7 @@ import (
 	"github.com/go-kid/ioc/configure/loader"
 	"github.com/go-kid/ioc/container/factory"
 	"github.com/go-kid/ioc/container/support"
+	"github.com/go-kid/ioc/definition"
 	"github.com/go-kid/ioc/syslog"
 
 	"verifsim/gen"
@@ -374,10 +375,33 @@ func Run(t *testing.T, bind *Binding, spec *RunSpec) *model.Obs {
 		closeReturned := false
 		inClose := false
 		res := ctx.Drive(func() { e.main(&inClose, &closeReturned) }, func(done bool) {
-			if inClose && spec.Quiesce != nil {
-				spec.Quiesce(obs, ctx, closeReturned)
+			if inClose {
+				snap := model.CloseSnap{Entered: map[string]int{}, Exited: map[string]int{}, Returned: closeReturned}
+				for _, site := range ctx.ParkedSites() {
+					if strings.HasPrefix(site, "close:") {
+						snap.Parked = append(snap.Parked, strings.TrimPrefix(site, "close:"))
+					}
+					if strings.HasPrefix(site, "close-start:") {
+						snap.Starting = append(snap.Starting, strings.TrimPrefix(site, "close-start:"))
+					}
+				}
+				for _, ev := range ctx.Events() {
+					switch ev.Kind {
+					case "close-enter":
+						snap.Entered[ev.Subj]++
+					case "close-exit":
+						snap.Exited[ev.Subj]++
+					}
+				}
+				if len(obs.CloseSnaps) < 64 {
+					obs.CloseSnaps = append(obs.CloseSnaps, snap)
+				}
+				if spec.Quiesce != nil {
+					spec.Quiesce(obs, ctx, closeReturned)
+				}
 			}
 		})
+		obs.CloseReturned = closeReturned
 		obs.Stuck = res.Stuck
 		obs.OverSteps = res.OverSteps
 		if res.Panic != "" && obs.Panic == "" {
@@ -427,6 +451,17 @@ func (e *env) main(inClose, closeReturned *bool) {
 	fac := factory.VerifNew(def, tracer)
 	undo := simrt.InstallPropertyOrder(ordP)
 	defer undo()
+	// hook H3: goroutines started by App.Close park before they invoke their closer
+	app.VerifCloseYield = func(m definition.CloserComponent) {
+		id := "?"
+		if v := reflect.ValueOf(m); v.Kind() == reflect.Pointer {
+			if x, ok := e.ptrID[v.Pointer()]; ok {
+				id = x
+			}
+		}
+		ctx.Yield("close-start:" + id)
+	}
+	defer func() { app.VerifCloseYield = nil }()
 
 	// environment objects
 	var comps []any
